@@ -24,6 +24,9 @@ func main() {
 	inl := flag.String("inline", "", "debug: comma separated function names to inline (* = all)")
 	verbose := flag.Bool("v", false, "debug: verbose events")
 	list := flag.Bool("list", false, "list properties")
+	isWorker := flag.Bool("worker", false, "internal: thorough-tier worker")
+	jobsFile := flag.String("jobs", "", "internal: worker job list")
+	baseFile := flag.String("base", "", "internal: worker base verdict")
 	var overlays multiFlag
 	flag.Var(&overlays, "overlay", "repoFile=replacementFile (analyse with a file replaced in memory; may repeat)")
 	flag.Parse()
@@ -44,6 +47,10 @@ func main() {
 		}
 		sort.Strings(ids)
 		fmt.Println(strings.Join(ids, " "))
+		return
+	}
+	if *isWorker {
+		worker(*prop, *repo, *jobsFile, *baseFile)
 		return
 	}
 	prog, err := core.Load(core.LoadOpts{Repo: *repo, Overlay: ov})
@@ -73,6 +80,9 @@ func main() {
 		}()
 		p.Run(ctx)
 	}()
+	if *tier == "thorough" && len(ov) == 0 {
+		thorough(p.ID, *repo, rep)
+	}
 	findings, err := core.LoadFindings(filepath.Join(*verif, "known_findings.json"))
 	if err != nil {
 		fmt.Fprintln(os.Stderr, "BROKEN: known_findings.json:", err)
